@@ -20,16 +20,7 @@ import (
 
 // payload: byte i of a direction is byte (i%8) of BigEndian64(i/8 XOR key): every 8-byte
 // block names its own offset, so loss, duplication and reordering are located, not just detected.
-func fill(buf []byte, off int, key uint64) {
-	var blk [8]byte
-	for i := range buf {
-		o := off + i
-		if i == 0 || o%8 == 0 {
-			binary.BigEndian.PutUint64(blk[:], uint64(o/8)^key)
-		}
-		buf[i] = blk[o%8]
-	}
-}
+func fill(buf []byte, off int, key uint64) { lib.FillStream(buf, off, key) }
 
 type script struct {
 	key            string
